@@ -51,6 +51,17 @@ Theorem C06_silent_until_restart :
 Proof. exact silent_until_restart. Qed.
 Print Assumptions C06_silent_until_restart.
 
+(* the scenario: data, UV_EOF, then POLLOUT|POLLERR|POLLHUP while a write waits (twice, and
+   once as a direct uv__stream_io event) although the kernel would even have data: silent *)
+Example C06_polled_after_eof_is_silent :
+  let tr := snd (exec wit_env (init true false [Data 3; Eof; Data 9])
+                      [OStart 1; ORun 1 false; ORun 17 false; ORun 28 true; OIo 25; ORun 28 true]) in
+  filter (fun e => match e with ERead _ _ _ _ _ | EAlloc _ _ _ => true | _ => false end) tr =
+    [EAlloc 0 65536 (mkBuf true 65536); ERead 1 3 (Some 0%nat) 0 3;
+     EAlloc 1 65536 (mkBuf true 65536); ERead 1 UV_EOF (Some 1%nat) 0 0].
+Proof. exact polled_after_eof_is_silent. Qed.
+Print Assumptions C06_polled_after_eof_is_silent.
+
 (* ... in particular UV_EOF is reported once: a later read callback is preceded by a
    successful uv_read_start. *)
 Theorem C06_eof_once :
